@@ -379,7 +379,15 @@ def chain_monitor(ctx, which, original, points, result):
             Pf = np.asarray(points, dtype=float)
             dry2 = Ctx(ctx.prop, ctx.tier, ctx.seed, ctx.shard, ctx.nshards)
             check_chain(dry2, which, Pf, original(Pf))
-            if not dry2.vkeys:
+            wrapped = True
+            if PROBE[0] is not None:
+                # the listed mechanism is the wrap of the orientation predicate: replay the call and see whether any
+                # evaluation of convex_hull._ccw really differed from its exact integer value
+                w0 = PROBE[0][0]
+                original(points)
+                wrapped = PROBE[0][0] > w0
+                ctx.h('ccw_int64_wraps_during_call', 'some' if wrapped else 'none')
+            if not dry2.vkeys and wrapped:
                 ctx.violation(f'chain:{which}:int64-overflow', f'chain:{which}:int64-overflow',
                               f'graham_scan_{which} on an int64 curve of magnitude {float(np.max(np.abs(points))):.3g}: ' + dry.violations[0]['what']
                               + ' - the float64 representation of the same values gets a correct chain (int64 products in the orientation predicate wrap)',
@@ -388,7 +396,14 @@ def chain_monitor(ctx, which, original, points, result):
     check_chain(ctx, which, points, result)
 
 
+PROBE = [None]      # the counter of wrapped convex_hull._ccw evaluations, once the probe is installed (C18's own check)
+
+
 def setup(ctx, mods):
+    from . import c20
+    c20._install_ccw_probe(mods)
+    PROBE[0] = c20.CCW_WRAP
+
     def post_lower(ctx, original, args, kwargs, result):
         chain_monitor(ctx, 'lower', original, args[0] if args else kwargs['points'], result)
 
